@@ -22,16 +22,6 @@ Definition successful_history (cap : N) (hist : list xop) : Prop :=
   exists pre, hist = pre ++ [XRevert; XOp OpDeleteDetached] /\
               verdict_ok_b (run_xops pre (init_st cap)) = true.
 
-(* commands are executed for the steps that are dispatched without a stored hash *)
-Fixpoint executed (ops : list op) (s : st) : list str :=
-  match ops with
-  | [] => []
-  | o :: ops' =>
-    match o with
-    | OpDispatch l => if has_hash l s then [] else [l]
-    | _ => []
-    end ++ executed ops' (apply_op s o)
-  end.
 (* a build issues OpDispatch only for steps that satisfy the dispatch predicate *)
 Fixpoint dispatch_enabled (ops : list op) (s : st) : Prop :=
   match ops with
@@ -124,6 +114,63 @@ Theorem C04_skip_changes_nothing :
     step_op (OpExecEnd l [] CSucceeded [] true false) s = Ok (upd_step l succeeded_row s).
 Proof. exact skip_changes_nothing. Qed.
 
+(* ---- the cone ---------------------------------------------------------------------------- *)
+
+(* Applying the EXTERNAL re-hash results of source files (CONFIRMED or MISSING static files) to ANY
+   state changes no node and no dependency row, and every step whose state changes becomes PENDING
+   and lies in the cone of the edited files: it is reachable from them along
+   file -> consuming step, step -> output file and step -> declared node links
+   (induction over the mutual recursion mark_step_pending / mark_file_outdated). *)
+Theorem C04_pending_only_in_cone :
+  forall (s : st) (hs : list (str * option N)) (s' : st),
+    static_sources_b s hs = true ->
+    update_file_hashes CExternal hs s = Ok s' ->
+    nodes s' = nodes s /\ deps s' = deps s /\
+    (forall l, sstate_of l s' <> sstate_of l s ->
+               in_cone s (map fst hs) [] l /\ sstate_of l s' = Some SPending).
+Proof. exact pending_only_in_cone. Qed.
+
+(* The same for a cone member marked PENDING directly (changed environment variable; G: changed
+   glob matches through persist_nglob_matches). *)
+Theorem C04_mark_pending_in_cone :
+  forall (s : st) (E G : list str) (l : str) (s' : st),
+    in_cone s E G l ->
+    (forall f, In f E -> fstate_of f s = Some FConfirmed \/ fstate_of f s = Some FMissing) ->
+    mark_step_pending l s = Ok s' ->
+    nodes s' = nodes s /\ deps s' = deps s /\
+    (forall l', sstate_of l' s' <> sstate_of l' s -> in_cone s E G l' /\ sstate_of l' s' = Some SPending).
+Proof. exact mark_pending_in_cone. Qed.
+
+(* PARTIAL (operations covered: see cone_op in model/Noop.v).  From a quiescent state q, through
+   any sequence of: EXTERNAL re-hash results of the edited sources E, cone steps marked PENDING,
+   dispatches of steps that satisfy the dispatch predicate, validate_dynamic_job -> PENDING of
+   cone steps, successful completions / skips of cone steps (their consumers become PENDING):
+   nodes and dependency rows are those of q, and every step whose state differs from its state
+   in q is in the cone of E (and G). *)
+Theorem C04_cone_invariant_partial :
+  forall (q : st) (E G : list str) (ops : list op),
+    quiescent_success_b q = true ->
+    (forall f, In f E -> fstate_of f q = Some FConfirmed \/ fstate_of f q = Some FMissing) ->
+    cone_ops q E G q ops ->
+    let s := run_ops ops q in
+    nodes s = nodes q /\ deps s = deps q /\
+    (forall l, sstate_of l s = sstate_of l q \/ in_cone q E G l) /\
+    (forall f, In f E -> fstate_of f s = Some FConfirmed \/ fstate_of f s = Some FMissing).
+Proof. exact cone_invariant_explicit. Qed.
+
+(* PARTIAL, same operations.  Every step that satisfies the dispatch predicate afterwards, and
+   every step for which a command was executed on the way (dispatched without a stored hash),
+   is in the cone. *)
+Theorem C04_cone_partial :
+  forall (q : st) (E G : list str),
+    quiescent_success_b q = true ->
+    (forall f, In f E -> fstate_of f q = Some FConfirmed \/ fstate_of f q = Some FMissing) ->
+    forall ops : list op,
+      cone_ops q E G q ops ->
+      (forall l, dispatch_guard l (run_ops ops q) = true -> in_cone q E G l) /\
+      (forall l, In l (executed ops q) -> in_cone q E G l).
+Proof. exact cone_partial. Qed.
+
 (* The hand-written model agrees with the facts regenerated from the source on every run:
    Graph.transition is workflow._HASH_TRANSITIONS (all 64 keys, present or absent); a re-hash
    result reaches update_file_hashes exactly when the rule of Executor._run_hash_job says so;
@@ -182,3 +229,22 @@ Example C04_example_edit :
   sstate_of Ex.t s1 = Some SPending /\ sstate_of Ex.plan s1 = Some SSucceeded /\
   fstate_of Ex.o s1 = Some FOutdated /\ dispatchable s1 = [Ex.t].
 Proof. vm_compute. repeat split; reflexivity. Qed.
+
+(* a rebuild after editing [a]: re-hash, dispatch t, complete it with a new output hash; the ops
+   are covered by the partial invariant; t and u are in the cone, the plan step is not touched *)
+Example C04_example_cone_ops :
+  let ops := [OpUpdateHashes CExternal [(Ex.a, Some 7)]; OpDispatch Ex.t;
+              OpExecEnd Ex.t [] CSucceeded [(Ex.o, Some 9)] true false] in
+  cone_ops Ex.q [Ex.a] [] Ex.q ops /\
+  sstate_of Ex.t (run_ops ops Ex.q) = Some SSucceeded /\
+  fstate_of Ex.o (run_ops ops Ex.q) = Some FBuilt /\
+  sstate_of Ex.plan (run_ops ops Ex.q) = Some SSucceeded.
+Proof.
+  assert (Ht : in_cone Ex.q [Ex.a] [] Ex.t).
+  { apply (down_dep Ex.q [Ex.a] [] (KFile, Ex.a) (KStep, Ex.t)); [apply down_edited; left; reflexivity|].
+    vm_compute. reflexivity. }
+  cbn [cone_ops]. repeat split; try (vm_compute; reflexivity).
+  - apply co_external. intros ph [<-|[]]. left. reflexivity.
+  - apply co_dispatch. vm_compute. reflexivity.
+  - apply co_exec_ok; [exact Ht|]. intros ph [<-|[]]. vm_compute. reflexivity.
+Qed.
